@@ -434,7 +434,62 @@ def judge(case, ctx, prefix='C20'):
             dd = same(own, twin)
             if dd:
                 ctx.violation(f'{prefix}/result-depends-on-object-identity/{name}', f'{name} on pool item {k}: an exemption list of the network\'s own element objects and one of equal elements from a rebuilt copy give different results at {dd}', {})
+    # ---- a result handed out is the caller's: overwriting it in place must not change what the same object answers next
+    for k, d in enumerate(pool):
+        if d['kind'] == 'circ':
+            results_are_the_callers(Item(copy.deepcopy(d)), ctx, prefix)
     ctx.sample({'pool_kinds': [d['kind'] for d in pool], 'history_head': log[:12], 'length': case['length']})
+
+
+def _scribble(x, spare):
+    """overwrite every writeable array inside a result (not those that are, or share memory with, an array the caller supplied)"""
+    n = 0
+    if isinstance(x, np.ndarray):
+        if x.flags.writeable and x.size and not any(np.shares_memory(x, a) for a in spare):
+            x[...] = 12345.678
+            n += 1
+    elif isinstance(x, (list, tuple)):
+        for v in x:
+            n += _scribble(v, spare)
+    elif isinstance(x, dict):
+        for v in x.values():
+            n += _scribble(v, spare)
+    return n
+
+
+def results_are_the_callers(it, ctx, prefix):
+    from CircuitCalculator.Circuit import solution as S
+    o = it.objs
+    t = np.linspace(0.0, 0.01, 7)
+    ids, nodes = o['ids'], o['nodes']
+    spare = [a for a in o.values() if isinstance(a, np.ndarray)] + [t]
+
+    def series(s):
+        return [s.get_voltage(i) for i in ids[:3]] + [s.get_current(ids[-1]), s.get_potential(nodes[-1]), s.get_power(ids[0])]
+
+    def functions(s):
+        return [f(t) for f in [s.get_voltage(i) for i in ids[:3]] + [s.get_current(ids[-1]), s.get_potential(nodes[-1]), s.get_power(ids[0])]]
+    makers = {
+        'FrequencyDomainSolution': (lambda: S.FrequencyDomainSolution(circuit=o['circ'], w_max=4 * o['w']), series),
+        'FrequencyDomainSolution-two-sided': (lambda: S.FrequencyDomainSolution(circuit=o['circ'], w_max=4 * o['w'], one_sided=False), series),
+        'TimeDomainSolution': (lambda: S.TimeDomainSolution(o['circ'], 4 * o['w']), functions),
+    }
+    if it.desc.get('dynamic'):
+        makers['TransientSolution'] = (lambda: S.TransientSolution(circuit=o['circ'], tin=o['tin'], input=o['input']), series)
+    for name, (make, query) in makers.items():
+        s = call(make)
+        first = None if raised(s) else call(query, s)
+        if raised(s) or raised(first):
+            ctx.count('alias_clause_not_evaluated_query_raised')         # the history clause judges raising operations
+            continue
+        c1 = canon(first)
+        n = _scribble(first, spare)
+        ctx.count('result_arrays_overwritten_by_the_caller', n)
+        second = call(query, s)
+        ctx.count('alias_requeries')
+        d = ['raised', second.type] if raised(second) else same(c1, canon(second))
+        if d:
+            ctx.violation(f'{prefix}/result-aliases-internal-state/{name}', f'{name}: the same queries answer differently after the arrays returned the first time were overwritten in place by the caller ({d})', {})
 
 
 def _split(fp_objs):
